@@ -54,6 +54,7 @@ func cmdRun(args []string) int {
 	solver := fs.String("solver", "z3", "z3|z3-new|cvc5")
 	timeout := fs.Int("timeout", 20000, "per-query timeout ms")
 	panics := fs.Bool("panics", true, "report panics as violations")
+	redirect := fs.String("redirect", "", "callee=harnessFn;...")
 	stubs := fs.String("stubs", "", "callee=kind;callee=kind")
 	apis := fs.String("apis", "", "extra api templates (comma separated, e.g. ldb)")
 	deadline := fs.Int("deadline", 0, "stop after this many seconds")
@@ -78,6 +79,13 @@ func cmdRun(args []string) int {
 	if err != nil {
 		fmt.Fprintln(os.Stderr, "load:", err)
 		return 2
+	}
+	for _, kv := range strings.Split(*redirect, ";") {
+		if kv == "" {
+			continue
+		}
+		p := strings.SplitN(kv, "=", 2)
+		eng.redirect[p[0]] = p[1]
 	}
 	opts := RunOpts{Unwind: *unwind, Witness: *witness, Params: map[string]int{}, PanicViolation: *panics}
 	if *stubs != "" {
